@@ -134,6 +134,13 @@ def compare_models(orig, loaded, is_safe):
                 return "initial_conditions.%s: %r vs %r" % (name, getattr(ca, name), getattr(cb, name))
         if not core.close(U.mass_fraction(ca.initial_feed_composition, mix), U.mass_fraction(cb.initial_feed_composition, mix), REL):
             return "initial_conditions.initial_feed_composition differs"
+        if not is_safe:  # the binary mode persists the temperature programme too (the JSON mode documents that it does not)
+            pa, pb = ca.temperature_program, cb.temperature_program
+            if (pa is None) != (pb is None):
+                return "initial_conditions.temperature_program present on one side only"
+            if pa is not None and (pa.type != pb.type or len(pa.coefficients) != len(pb.coefficients) or
+                                   not all(num_eq(u, w) for u, w in zip(pa.coefficients, pb.coefficients))):
+                return "initial_conditions.temperature_program: %r vs %r" % (pa, pb)
     return None
 
 
@@ -412,7 +419,7 @@ def main(tier, seed):
         for mode in ("vac", ("T", -20.0), ("p", 0.5)):
             for basis in ("weight", "molar"):
                 for mixn, model in (("H2O_EtOH", "NRTL"), ("MeOH_DMC", "UNIQUAC")) if not q else (("H2O_EtOH", "NRTL"),):
-                    spec = {"kind": kind, "mixture": mixn, "model": model, "mode": mode, "prog": "poly" if kind.endswith("noniso") else "none",
+                    spec = {"kind": kind, "mixture": mixn, "model": model, "mode": mode, "prog": "exp3" if kind.endswith("noniso") else "none",
                             "area": 0.05, "amount": 50.0, "dt": core.lat([0.5, 1.0], seed)[0], "steps": 4, "x0": core.lat([0.1, 0.3], seed)[0], "basis": basis, "T": 333.15}
                     if kind.startswith("nonideal"):
                         spec.update(curves=spaces.CURVE_CONFIGS["one"], init_perm=None)
